@@ -8,6 +8,16 @@ ROOT = os.path.dirname(os.path.abspath(__file__))
 
 # obligation function name -> searches to run (default: the function's own name)
 ALIASES = {}
+# failing unit -> searches that look for a concrete witness of the property the unit serves
+UNIT_SEARCHES = {
+    'mixed_radix': ['MixedRadix', 'MixedRadixSmall'],
+    'good_thomas': ['GoodThomasAlgorithm', 'GoodThomasAlgorithmSmall'],
+    'plan_scalar': ['plan_scalar:2048', 'partition:65536'],
+    'math_utils': ['partition:65536'],
+    'radix4': ['Radix4', 'Radix3'],
+    'raders': ['RadersAlgorithm'],
+    'bluesteins': ['BluesteinsAlgorithm'],
+}
 
 
 def build(repo, build_dir, features=''):
@@ -31,7 +41,7 @@ _MEMO = {}
 
 
 def search(prop, failure, repo, build_dir):
-    key = (failure.get('function'), repo)
+    key = (failure.get('function'), (failure.get('obligation') or '').split('[')[0], repo)
     if key not in _MEMO:
         _MEMO[key] = _search(prop, failure, repo, build_dir)
     return _MEMO[key]
@@ -39,7 +49,8 @@ def search(prop, failure, repo, build_dir):
 
 def _search(prop, failure, repo, build_dir):
     fn = failure.get('function') or ''
-    names = ALIASES.get(fn, [fn])
+    unit = (failure.get('obligation') or '').split('[')[0]
+    names = ALIASES.get(fn, [fn]) + UNIT_SEARCHES.get(unit, [])
     names = [n for n in names if n]
     if not names:
         return {'found': False, 'text': 'no search registered'}
